@@ -7,6 +7,7 @@ float mode ``ex`` is a :class:`FloatCtx`: the same harness is run once on IEEE d
 taken from a counterexample model (replay).
 """
 import math
+import json
 import os
 import time
 import itertools
@@ -860,6 +861,7 @@ class Explorer:
             self.names = {}
             self.uf_log = {}
             self.div_terms = []
+            self.fixed = {}        # int / bool inputs whose value was fixed by a fork on this path (used when no solver model is available)
             self._fresh = 0
             self.memo = {}
             self.path_cex = []
@@ -1153,6 +1155,7 @@ class Explorer:
                 raise HarnessError('non-deterministic replay of decisions')
             self._add(cond if d[1] else z3.Not(cond))
             self.lits[k] = d[1]
+            self._note_fixed(cond, d[1])
             return d[1]
         ms = self._model_says(cond)
         if ms is True:
@@ -1178,7 +1181,15 @@ class Explorer:
         self.pos += 1
         self._add(cond if d else z3.Not(cond))
         self.lits[k] = d
+        self._note_fixed(cond, d)
         return d
+
+    def _note_fixed(self, term, value):
+        try:
+            if z3.is_const(term) and term.decl().kind() == z3.Z3_OP_UNINTERPRETED:
+                self.fixed[term.decl().name()] = value
+        except Exception:
+            pass
 
     def concretize(self, term):
         """fork over the feasible integer values of `term`"""
@@ -1192,6 +1203,7 @@ class Explorer:
             if d[0] == 'c':
                 self.pos += 1
                 self._add(term == d[1])
+                self._note_fixed(term, d[1])
                 return d[1]
             if d[0] != 'cx':
                 raise HarnessError('non-deterministic replay of decisions')
@@ -1228,6 +1240,7 @@ class Explorer:
         self.decisions.append(('c', v))
         self.pos += 1
         self._add(term == v)
+        self._note_fixed(term, v)
         return v
 
     def choice(self, name, options):
@@ -1439,7 +1452,7 @@ class Explorer:
         if r == 'unknown' and isinstance(cond, bool) and not soft:
             # the obligation is concretely false on this path but the solver could not produce a model of the path
             # condition in time: hand an empty model to the replay, which then runs on default concrete inputs
-            cex = {'label': label, 'model': {}, 'decisions': [], 'info': (info or '') + ' [no solver model; replayed on default inputs]',
+            cex = {'label': label, 'model': dict(getattr(self, 'fixed', {})), 'decisions': [], 'info': (info if isinstance(info, str) else (json.dumps(info, default=str) if info else '')) + ' [no solver model; replayed on default inputs]',
                    'pc_size': len(self.pc)}
             self.stats.q_unknown -= 1
             self.stats.cex.append(cex)
